@@ -15,8 +15,8 @@ Definition keys_of (j : instr) : list key :=
   match j with
   | INcChk _ _ _ own _ => [own]
   | IRcvGet r => [r_own r; rcv_key r]
-  | IRcvChk r rk _ | IRcvEnq r rk => [r_own r; rk]
-  | IFailGet t _ | IEntomb t _ | IDelete t => [t]
+  | IRcvChk r rk _ | IRcvEnq r rk _ => [r_own r; rk]
+  | IFailGet t _ | IEntomb t _ | IDelete t _ => [t]
   | _ => []
   end.
 
